@@ -1,10 +1,84 @@
-(* C08 - the SQLite store behaves as a keyed collection over any operation history. Property theorems only. *)
+(* C08 - the SQLite store behaves as a keyed collection over any operation history. Property theorems only.
+   Model (hand-written, compared with the implementation on every run): Db/DbModel.v = the ten tables with their UNIQUE / NOT NULL /
+   FOREIGN KEY constraints, every public function of parsing/sqlite.py as the statements it issues, ADSORBATE_LIST / MATERIAL_LIST as
+   state, with_connection as one transaction.  Dictionary model: Db/DbSpec.v.
+   PARTIAL: the per-operation refinement tables -> dictionary is proved here for isotherm deletion and for the retrievals; for the other
+   operations it is evaluated inside Coq on every step of every history of the run (Db/DbShow.v spec_verdict), not proved. *)
 From Coq Require Import ZArith List Bool.
 From PG Require Import Db.DbModel Db.DbSpec Db.DbRefine.
 Import ListNotations.
 Open Scope Z_scope.
 
+(* a refused operation changes nothing in the file: every operation, every content, every registry *)
 Theorem refused_operation_changes_nothing : forall o d r oc d' r' n,
   run_op o d r = (oc, d', r', n) -> (forall a, oc <> OOk a) -> d' = d.
-Proof. intros. eapply with_conn_refused_unchanged; eauto. discriminate. Qed.
+Proof. exact refused_op_unchanged. Qed.
 Print Assumptions refused_operation_changes_nothing.
+(* retrievals (with and without criteria) change neither the file nor the registries *)
+Theorem retrieval_changes_nothing : forall o d r oc d' r' n,
+  is_get o = true -> run_op o d r = (oc, d', r', n) -> d' = d /\ r' = r.
+Proof. exact DbRefine.retrieval_changes_nothing. Qed.
+Print Assumptions retrieval_changes_nothing.
+(* deleting an isotherm refines the dictionary's delete: absent -> parsing error and nothing changes; present -> exactly that item
+   (row, properties, data) disappears from the abstraction, everything else is untouched; for arbitrary table contents *)
+Theorem isotherm_deletion_refines_dictionary : forall i d r,
+  match s_iso_delete i (abs d) with
+  | Some s' => fst (fst (fst (run_op (IsoDel i) d r))) = OOk RUnit /\ abs (snd (fst (fst (run_op (IsoDel i) d r)))) = s'
+  | None => fst (fst (fst (run_op (IsoDel i) d r))) = OParsing /\ snd (fst (fst (run_op (IsoDel i) d r))) = d end.
+Proof. exact iso_delete_refines. Qed.
+Print Assumptions isotherm_deletion_refines_dictionary.
+(* the outcome and the content afterwards depend on the target file only - not on the registries, i.e. not on earlier uploads of the
+   session or on other files - for every operation except isotherm uploads with auto-insert *)
+Theorem outcome_depends_on_target_file_only_partial : forall o d r1 r2,
+  uses_registry o = false ->
+  fst (fst (fst (run_op o d r1))) = fst (fst (fst (run_op o d r2)))
+  /\ snd (fst (fst (run_op o d r1))) = snd (fst (fst (run_op o d r2))).
+Proof. exact outcome_depends_on_target_file_only. Qed.
+Print Assumptions outcome_depends_on_target_file_only_partial.
+Theorem other_files_untouched : forall fs r fo j, j <> fst fo -> nth j (files_after (step fs r fo)) empty_db = nth j fs empty_db.
+Proof. exact DbRefine.other_files_untouched. Qed.
+Print Assumptions other_files_untouched.
+(* arbitrary histories over several files: the final content of file i is what the operations aimed at file i produce on that file
+   alone, whatever happened on the other files and whatever the registries held (histories without auto-inserting isotherm uploads) *)
+Theorem history_files_independent_partial : forall h fs r r2 i,
+  forallb (fun fo => negb (uses_registry (snd fo))) h = true -> (i < length fs)%nat ->
+  nth i (final_files (run_hist fs r h)) empty_db = run_file (nth i fs empty_db) r2 (proj i h).
+Proof. exact history_files_independent. Qed.
+Print Assumptions history_files_independent_partial.
+
+(* ---- refuted items (each witness is replayed on the implementation by the check) *)
+Theorem registry_cross_file_refuted :
+  outcomes (run_hist [w_db; w_db] (mkReg [10] []) [(0%nat, IsoUp w_iso true true); (1%nat, IsoUp w_iso true true)]) = [OOk RUnit; OParsing]
+  /\ fst (sstep plain (IsoUp w_iso true true) (abs w_db)) = true.
+Proof. exact registry_cross_file_w. Qed.
+Print Assumptions registry_cross_file_refuted.
+Theorem numeric_text_property_refuted :
+  let d' := db_after (run_op (EntUp EMat 30 [(20, [VNumText 7 8])] true false) w_db (mkReg [] [])) in
+  s_items (smat (abs d')) = [(30, [(20, VNum 8)])]
+  /\ s_items (smat (snd (sstep plain (EntUp EMat 30 [(20, [VNumText 7 8])] true false) (abs w_db)))) = [(30, [(20, VNumText 7 8)])]
+  /\ vcode (VNum 8) <> vcode (VNumText 7 8).
+Proof. exact numeric_text_w. Qed.
+Print Assumptions numeric_text_property_refuted.
+Theorem retrieved_isotherm_has_extra_key_refuted :
+  let d' := db_after (run_op (IsoUp w_iso true true) w_db (mkReg [10] [])) in
+  match oc_after (run_op (IsoGet (mkC None None None None)) d' (mkReg [10] [30])) with
+  | OOk (RIsos [x]) => o_props x = (A_iso_type, VText A_point) :: n_props w_iso /\ o_data x = n_data w_iso
+  | _ => False end.
+Proof. exact retrieved_iso_extra_key_w. Qed.
+Print Assumptions retrieved_isotherm_has_extra_key_refuted.
+Theorem isotherm_property_types_unsupported_refuted : forall d r ty u ds w,
+  fst (fst (fst (run_op (TyUp TIsoProp ty u ds w) d r))) = OOther EOperational.
+Proof. exact iso_property_types_w. Qed.
+Print Assumptions isotherm_property_types_unsupported_refuted.
+Theorem material_list_property_collapsed_refuted :
+  let d' := db_after (run_op (EntUp EMat 30 [(20, [VText 1; VText 2])] true false) w_db (mkReg [] [])) in
+  s_items (smat (abs d')) = [(30, [(20, VText 1); (20, VText 2)])]
+  /\ oc_after (run_op (EntGet EMat) d' (mkReg [] [30])) = OOk (REnts [(1, 30, [(20, VText 2)])]).
+Proof. exact material_list_collapsed_w. Qed.
+Print Assumptions material_list_property_collapsed_refuted.
+
+Example history_hypotheses_satisfiable :
+  forallb (fun fo => negb (uses_registry (snd fo)))
+    [(0%nat, EntUp EMat 30 [] true false); (1%nat, IsoUp w_iso false false); (0%nat, IsoDel 100); (1%nat, EntGet EAds)] = true
+  /\ (1 < length [w_db; w_db])%nat.
+Proof. vm_compute. split; [reflexivity|]. repeat constructor. Qed.
